@@ -37,6 +37,7 @@ pub fn run(r: &mut Report) {
     run_step_content_oracle(r);
     run_step_output_bytes(r);
     digest_routine(r);
+    run_command_arguments(r);
 }
 
 /// independent oracle: every regular file reachable under `root` (following symlinks to files and directories, never entering a
@@ -270,4 +271,29 @@ fn digest_routine(r: &mut Report) {
     r.case("digest-routine-any-reader", json!({"calls": n}), "standard digests and exact size from every reader", format!("{:?}", bad), bad.is_empty());
     let empty = no_panic(|| calculate_hashes(&b"abc"[..], &[]));
     r.case("digest-routine-empty-algorithm-list", json!({}), "Err", format!("{:?}", empty.as_ref().map(|x| x.as_ref().map(|_| "Ok").map_err(|e| e.to_string()))), matches!(&empty, Ok(Err(_))));
+}
+
+/// the command that runs is the command that was given: arguments reach the process verbatim (they are not resolved against the
+/// caller's directory), and it runs in the directory that was asked for
+fn run_command_arguments(r: &mut Report) {
+    use std::os::unix::fs::symlink;
+    let _g = crate::c08::CWD_LOCK.lock().unwrap();
+    let caller = crate::fixture::tmpdir(); let rundir = crate::fixture::tmpdir();
+    std::fs::write(caller.path().join("data.txt"), "caller\n").unwrap(); std::fs::create_dir_all(caller.path().join("sub")).unwrap(); symlink("data.txt", caller.path().join("alias")).unwrap();
+    std::fs::write(rundir.path().join("data.txt"), "rundir\n").unwrap(); std::fs::create_dir_all(rundir.path().join("sub")).unwrap();
+    let old = std::env::current_dir().unwrap();
+    std::env::set_current_dir(caller.path()).unwrap();
+    for dir in [None, Some(rundir.path().to_str().unwrap().to_string())] {
+        for arg in ["data.txt", "./data.txt", "sub", "sub/..", ".", "..", "alias", "missing.txt", "-n", "a b"] {
+            let res = no_panic(|| in_toto::runlib::run_command(&["echo", arg], dir.as_deref()));
+            let want = format!("{}\n", arg);
+            let got = match &res { Ok(Ok(bp)) => bp.stdout().clone().unwrap_or_default(), other => format!("{:?}", other.as_ref().map(|x| x.as_ref().map(|_| ()).map_err(|e| e.to_string()))) };
+            if arg != "-n" { r.case("arguments-reach-the-command-verbatim", json!({"argument": arg, "run_dir": dir.is_some()}), &format!("{:?}", want), format!("{:?}", got), got == want); }
+        }
+        let res = no_panic(|| in_toto::runlib::run_command(&["cat", "data.txt"], dir.as_deref()));
+        let want = if dir.is_some() { "rundir\n" } else { "caller\n" };
+        let got = match &res { Ok(Ok(bp)) => bp.stdout().clone().unwrap_or_default(), other => format!("{:?}", other.as_ref().map(|x| x.as_ref().map(|_| ()).map_err(|e| e.to_string()))) };
+        r.case("command-runs-in-the-requested-directory", json!({"command": "cat data.txt", "run_dir": dir.is_some()}), &format!("{:?}", want), format!("{:?}", got), got == want);
+    }
+    std::env::set_current_dir(old).unwrap();
 }
